@@ -31,7 +31,7 @@ import WcModel.Properties.C05split
       determined range of components (the split is unique).
 
   (2) MODEL LEVEL, globstar-free — `C04_main_partial` / `C04_main_globfree`: for globstar-free
-      printed relative patterns in scope (`Bridge.patOK`, `noPosixPath`), the flag words
+      printed relative patterns in scope (`Bridge.patOK`; POSIX classes in brackets allowed), the flag words
       EXTGLOB | SCANDOTDIR (+DOTGLOB) (+GLOBSTAR), and every path of components in scope:
 
          (∃ x ∈ globResults … [parts], untrail x = q)  ↔  matchReal fs o q = true
@@ -55,7 +55,8 @@ import WcModel.Properties.C05split
       Hypotheses that exclude recorded C04 defects: `hD17` (D17); components not ending in a newline
       (D3p under DOTGLOB, D3 with a globstar); no IGNORECASE (G2); segments in `Pat.segScope` (D1p,
       D5, G5/G6: not nullable); `hD8` for `A/**/` (D8); one globstar (G8).  Not covered: a leading
-      globstar at the model level.  Finding D34 (repaired): `D34_bridge_fixed_witness`.
+      globstar at the model level.  Finding D34 (repaired; the hypothesis it forced, no POSIX class in a
+      bracket, is gone): `D34_bridge_fixed_witness`, `posix_bridge_witness`.
 -/
 namespace WcModel.C04bridge
 open Bridge PP PPP
@@ -341,14 +342,14 @@ theorem C04_main_partial (dot gs : Bool) (fs : FS) (hwf : fs.WFTree) (hroot : fs
     · rw [untrail_format]; exact hvq
 
 /-- **C04_main_globfree** — `C04_main_partial` with the splitter and the compiler discharged:
-    for every globstar-free printed relative pattern in scope (`patOK`) without POSIX class in its
-    brackets (`noPosixPath`: was forced by D34, now a limit of the proof only, `D34_bridge_fixed_witness`), under EXTGLOB | SCANDOTDIR (+DOTGLOB)
+    for every globstar-free printed relative pattern in scope (`patOK`; brackets may hold POSIX
+    classes, `posix_bridge_witness`), under EXTGLOB | SCANDOTDIR (+DOTGLOB)
     (+GLOBSTAR): `_GlobSplit` succeeds (`parts`), `globmatch`'s compilation succeeds (`o`), and on
     every well-formed tree, for every path `q` of components in scope,
         `glob` returns `q` (up to a trailing separator)  ⇔  `globmatch(q, flags | REALPATH)`.
     `hD17`: if the first segment is literal text naming a root entry and more segments follow, that
     entry is a directory (excludes D17). -/
-theorem C04_main_globfree (dot gs : Bool) (pp : PathPat) (hpp : patOK pp = true) (hnp : noPosixPath pp = true)
+theorem C04_main_globfree (dot gs : Bool) (pp : PathPat) (hpp : patOK pp = true)
     (hg : pp.segs.any Seg.isGlob = false)
     (hdots : ∀ g rest, pp.segs = .pat g :: rest → print g ≠ WcModel.dot ∧ print g ≠ WcModel.dotdot) :
     ∃ parts o, globSplit (gInit dot gs).flags false (printPath pp) = .ok parts ∧
@@ -359,7 +360,7 @@ theorem C04_main_globfree (dot gs : Bool) (pp : PathPat) (hpp : patOK pp = true)
         ∀ (n : Name) (ns : List Name), (∀ m ∈ n :: ns, NameOK dot m) →
           ((∃ x ∈ globResults (wctxF dot gs) fs fuel [parts], untrail x = pjoins [] (n :: ns)) ↔
             matchReal fs o (pjoins [] (n :: ns)) = true) := by
-  obtain ⟨parts, hs, hshape⟩ := globSplit_patOK dot gs pp hpp hnp hg
+  obtain ⟨parts, hs, hshape⟩ := globSplit_patOK dot gs pp hpp hg
   obtain ⟨parsed, r, hp1, hp2, _, _⟩ := matcher_sem dot gs pp hpp hg
   have hm := compileMatch_single dot gs (printPath pp) parsed r hp1 hp2
   refine ⟨parts, _, hs, hm, ?_⟩
@@ -444,7 +445,7 @@ theorem first_of_shape {f : Flags} {tr : Bool} {segs : List Seg} {parts : List G
     globstar stands for is a symbolic link (`noLinks` — `_fs_match`'s own test).
     This is the `glob` half of C04 for one `**`; the `globmatch` half needs the capture spans of
     the REALPATH regex (`fsMatch` on `Re.fullmatchCap`), which is not done here. -/
-theorem glob_one_glob (dot : Bool) (pp : PathPat) (hpp : patOKg pp = true) (hnp : noPosixPath pp = true)
+theorem glob_one_glob (dot : Bool) (pp : PathPat) (hpp : patOKg pp = true)
     (A B : List Seg) (hsegs : pp.segs = A ++ .glob :: B) (hA : globFree A = true) (hB : globFree B = true)
     (hdots : ∀ g rest, pp.segs = .pat g :: rest → print g ≠ WcModel.dot ∧ print g ≠ WcModel.dotdot) :
     ∃ parts, globSplit (gInit dot true).flags false (printPath pp) = .ok parts ∧
@@ -458,7 +459,7 @@ theorem glob_one_glob (dot : Bool) (pp : PathPat) (hpp : patOKg pp = true) (hnp 
             (pp.trailing = true → fs.isdir (pjoins [] (n :: ns)) = true) ∧
             noLinks fs (pjoins [] ((n :: ns).take A.length))
               (starPieces A.length B.length B.isEmpty (n :: ns)) = true) := by
-  obtain ⟨parts, hs, hshape⟩ := globSplit_patOKg dot pp hpp hnp
+  obtain ⟨parts, hs, hshape⟩ := globSplit_patOKg dot pp hpp
   refine ⟨parts, hs, ?_⟩
   intro fs hwf hroot fuel hf hD17 n ns hok
   have hpp' := hpp
@@ -522,7 +523,7 @@ theorem segsMatch_tr_ptr (ctx : PCtx) (r : DotRule) : ∀ (segs : List Seg), seg
 
 /-- **C04_main_one_glob** — `glob` = `globmatch(REALPATH)` on the models for printed relative
     patterns `A/**/B` with ONE globstar standing between file-name segments (`A = g :: A'` and `B`
-    non-empty, globstar-free; everything in scope `patOK`, no POSIX class in brackets), under
+    non-empty, globstar-free; everything in scope `patOK`), under
     EXTGLOB | SCANDOTDIR | GLOBSTAR (+DOTGLOB).
     `_GlobSplit` succeeds (`parts`), `globmatch`'s compilation succeeds (`o`: one inclusion regex with
     one capture group), and on every well-formed tree, for every path `q` of components in scope
@@ -536,7 +537,7 @@ theorem segsMatch_tr_ptr (ctx : PCtx) (r : DotRule) : ∀ (segs : List Seg), seg
     globstar at the START (the REALPATH run of the port is not proved for a leading `**` here), two
     globstars (G8: the link rule is applied to the ONE decomposition the regex engine reports, `glob`
     tries all of them — not a matter of proof effort). -/
-theorem C04_main_one_glob (dot : Bool) (pp : PathPat) (hpp : patOK pp = true) (hnp : noPosixPath pp = true)
+theorem C04_main_one_glob (dot : Bool) (pp : PathPat) (hpp : patOK pp = true)
     (g : Pat) (A' B : List Seg) (hsegs : pp.segs = (Seg.pat g :: A') ++ .glob :: B)
     (hA' : globFree A' = true) (hB : globFree B = true) (hBne : B ≠ [])
     (hdots : print g ≠ WcModel.dot ∧ print g ≠ WcModel.dotdot) :
@@ -554,7 +555,7 @@ theorem C04_main_one_glob (dot : Bool) (pp : PathPat) (hpp : patOK pp = true) (h
     simp only [patOKg, Bool.and_eq_true]
     exact ⟨⟨hpp.1.1.1, hpp.1.1.2⟩, hpp.2⟩
   -- the `glob` side
-  obtain ⟨parts, hs, hglob⟩ := glob_one_glob dot pp hppg hnp (.pat g :: A') B hsegs hA hB (by
+  obtain ⟨parts, hs, hglob⟩ := glob_one_glob dot pp hppg (.pat g :: A') B hsegs hA hB (by
     intro g' rest h
     rw [hsegs] at h
     simp only [List.cons_append, List.cons.injEq, Seg.pat.injEq] at h
@@ -740,7 +741,7 @@ theorem C04_main_one_glob (dot : Bool) (pp : PathPat) (hpp : patOK pp = true) (h
     as the LAST component is accepted by both sides (D7 was exactly the disagreement there).
     `hD8`: when the pattern ends with a separator (`A/**/`) the path is a directory — D8 (`**/`
     accepts a regular file in `globmatch`, `glob` returns directories only) is still open. -/
-theorem C04_main_end_glob (dot : Bool) (pp : PathPat) (hpp : patOK pp = true) (hnp : noPosixPath pp = true)
+theorem C04_main_end_glob (dot : Bool) (pp : PathPat) (hpp : patOK pp = true)
     (g : Pat) (A' : List Seg) (hsegs : pp.segs = (Seg.pat g :: A') ++ [.glob])
     (hA' : globFree A' = true)
     (hdots : print g ≠ WcModel.dot ∧ print g ≠ WcModel.dotdot) :
@@ -758,7 +759,7 @@ theorem C04_main_end_glob (dot : Bool) (pp : PathPat) (hpp : patOK pp = true) (h
     simp only [patOK, relOK, Bool.and_eq_true] at hpp
     simp only [patOKg, Bool.and_eq_true]
     exact ⟨⟨hpp.1.1.1, hpp.1.1.2⟩, hpp.2⟩
-  obtain ⟨parts, hs, hglob⟩ := glob_one_glob dot pp hppg hnp (.pat g :: A') [] hsegs hA rfl (by
+  obtain ⟨parts, hs, hglob⟩ := glob_one_glob dot pp hppg (.pat g :: A') [] hsegs hA rfl (by
     intro g' rest h
     rw [hsegs] at h
     simp only [List.cons_append, List.cons.injEq, Seg.pat.injEq] at h
@@ -868,8 +869,8 @@ theorem C04_main_end_glob (dot : Bool) (pp : PathPat) (hpp : patOK pp = true) (h
 
 /-! ## a finding, repaired: `_GlobSplit._sequence` did not know POSIX classes (D34) -/
 
-/-- **D34 (found here: the hypothesis `noPosixPath` was forced by it; repaired by the `fix:` commit
-    421a2e4).**  `_GlobSplit._sequence` (glob.py 202-226) used to end a bracket at the first `]`; it
+/-- **D34 (found here: a hypothesis "no POSIX class in a bracket of the pattern" was forced by it;
+    repaired by the `fix:` commit 421a2e4).**  `_GlobSplit._sequence` (glob.py 202-226) used to end a bracket at the first `]`; it
     did not know `[:digit:]`.  So in `[[:digit:]@(]x/y)` the scanner believed the bracket was over
     after `[:digit:]`, read `@(` as the start of an extended group, and `parse_extend` swallowed the
     separator up to the `)`: the pattern was NOT split at `/`, `glob.glob('[[:digit:]@(]x/y)',
@@ -877,9 +878,9 @@ theorem C04_main_end_glob (dot : Bool) (pp : PathPat) (hpp : patOK pp = true) (h
     `globmatch('1x/y)', '[[:digit:]@(]x/y)', flags=EXTGLOB|REALPATH)` is `True` — a C04 (and C05)
     violation, reproduced by the model at the time (`posix_split_defect`).  Since the repair the
     scanner reads a bracket as `WcParse._sequence` does (`SeqScan.seq_scanners_agree`): two parts,
-    the walker returns the file, the matcher accepts it.  (`noPosixPath` is still a hypothesis of
-    the bridge theorems below — their proofs follow a printed bracket member by member and have
-    not been extended to class members yet — but it is no longer forced by a defect.) -/
+    the walker returns the file, the matcher accepts it.  The hypothesis is gone from every bridge
+    theorem: `Bridge.sequence_print` now goes through `SeqScan.gsplit_sequence_agree`
+    (`posix_bridge_witness` below: `C04_main_globfree` on `[[:digit:]]x/*`). -/
 def tPosix : FS := ⟨.dir [("1x".toList, .dir [("y)".toList, .file)])], []⟩
 
 theorem D34_bridge_fixed_witness :
@@ -896,7 +897,7 @@ theorem D34_bridge_fixed_witness :
 /-- `ld/*` -/
 def ppLd : PathPat := ⟨false, [.pat (.seq (.lit 'l') (.lit 'd')), .pat .star], false⟩
 
-theorem ppLd_ok : printPath ppLd = "ld/*".toList ∧ patOK ppLd = true ∧ noPosixPath ppLd = true ∧
+theorem ppLd_ok : printPath ppLd = "ld/*".toList ∧ patOK ppLd = true ∧
     ppLd.segs.any Seg.isGlob = false := by decide +kernel
 
 theorem t1_wf : C04.t1.WFTree := wfTree_of_wfB _ (by decide +kernel)
@@ -914,8 +915,8 @@ theorem C04_bridge_example :
         matchReal C04.t1 o "ld/g".toList = true) ∧
       ((∃ x ∈ globResults (wctxF false true) C04.t1 8 [parts], untrail x = "d/g".toList) ↔
         matchReal C04.t1 o "d/g".toList = true) := by
-  obtain ⟨h1, h2, h3, h4⟩ := ppLd_ok
-  obtain ⟨parts, o, hs, hm, hall⟩ := C04_main_globfree false true ppLd h2 h3 h4 (by
+  obtain ⟨h1, h2, h4⟩ := ppLd_ok
+  obtain ⟨parts, o, hs, hm, hall⟩ := C04_main_globfree false true ppLd h2 h4 (by
     intro g rest h
     simp only [ppLd, List.cons.injEq, Seg.pat.injEq] at h
     obtain ⟨rfl, _⟩ := h
@@ -953,7 +954,7 @@ theorem C04_bridge_example_eval :
 /-- `**/g` -/
 def ppStarG : PathPat := ⟨false, [.glob, .pat (.lit 'g')], false⟩
 
-theorem ppStarG_ok : printPath ppStarG = "**/g".toList ∧ patOKg ppStarG = true ∧ noPosixPath ppStarG = true := by
+theorem ppStarG_ok : printPath ppStarG = "**/g".toList ∧ patOKg ppStarG = true := by
   decide +kernel
 
 /-- **the link rule, both directions, through `glob_one_glob`** on `C04.t1`
@@ -967,8 +968,8 @@ theorem glob_one_glob_example :
       (¬ ∃ x ∈ globResults (wctxF false true) C04.t1 8 [parts], untrail x = "ld/g".toList) ∧
       pathLangR (ctxF false true) .free ppStarG "ld/g".toList = true ∧ C04.t1.lexists "ld/g".toList = true ∧
       C04.t1.islink "ld".toList = true := by
-  obtain ⟨h1, h2, h3⟩ := ppStarG_ok
-  obtain ⟨parts, hs, hall⟩ := glob_one_glob false ppStarG h2 h3 [] [.pat (.lit 'g')] rfl rfl rfl (by
+  obtain ⟨h1, h2⟩ := ppStarG_ok
+  obtain ⟨parts, hs, hall⟩ := glob_one_glob false ppStarG h2 [] [.pat (.lit 'g')] rfl rfl rfl (by
     intro g rest h; simp [ppStarG] at h)
   rw [h1] at hs
   refine ⟨parts, hs, ?_, ?_, by decide +kernel, by decide +kernel, by decide +kernel⟩
@@ -1000,7 +1001,7 @@ def ppAG : PathPat := ⟨false, [.pat (.lit 'a'), .glob, .pat (.lit 'g')], false
 def t4 : FS := ⟨.dir [("a".toList, .dir [("d".toList, .dir [("g".toList, .file)]),
                                           ("ld".toList, .link (some ["a".toList, "d".toList]))])], []⟩
 
-theorem ppAG_ok : printPath ppAG = "a/**/g".toList ∧ patOK ppAG = true ∧ noPosixPath ppAG = true := by
+theorem ppAG_ok : printPath ppAG = "a/**/g".toList ∧ patOK ppAG = true := by
   decide +kernel
 
 theorem t4_wf : t4.WFTree := wfTree_of_wfB _ (by decide +kernel)
@@ -1015,8 +1016,8 @@ theorem C04_one_glob_example :
         matchReal t4 o "a/d/g".toList = true) ∧
       ((∃ x ∈ globResults (wctxF false true) t4 8 [parts], untrail x = "a/ld/g".toList) ↔
         matchReal t4 o "a/ld/g".toList = true) := by
-  obtain ⟨h1, h2, h3⟩ := ppAG_ok
-  obtain ⟨parts, o, hs, hm, hall⟩ := C04_main_one_glob false ppAG h2 h3 (.lit 'a') [] [.pat (.lit 'g')] rfl rfl
+  obtain ⟨h1, h2⟩ := ppAG_ok
+  obtain ⟨parts, o, hs, hm, hall⟩ := C04_main_one_glob false ppAG h2 (.lit 'a') [] [.pat (.lit 'g')] rfl rfl
     (by decide) (by simp) (by decide)
   rw [h1] at hs hm
   have hD17 : ∀ e ∈ entriesOf t4 t4.rootDir, e.name = print (.lit 'a') → e.isDir = true := by decide +kernel
@@ -1043,7 +1044,7 @@ theorem C04_one_glob_example_eval :
 /-- `a/**` -/
 def ppAEnd : PathPat := ⟨false, [.pat (.lit 'a'), .glob], false⟩
 
-theorem ppAEnd_ok : printPath ppAEnd = "a/**".toList ∧ patOK ppAEnd = true ∧ noPosixPath ppAEnd = true := by
+theorem ppAEnd_ok : printPath ppAEnd = "a/**".toList ∧ patOK ppAEnd = true := by
   decide +kernel
 
 /-- **`C04_main_end_glob` applies to `a/**` on `t4`** (`r/ = { a/ { d/ { g }, ld -> a/d } }`): the
@@ -1058,8 +1059,8 @@ theorem C04_end_glob_example :
         matchReal t4 o "a/ld".toList = true) ∧
       ((∃ x ∈ globResults (wctxF false true) t4 8 [parts], untrail x = "a/ld/g".toList) ↔
         matchReal t4 o "a/ld/g".toList = true) := by
-  obtain ⟨h1, h2, h3⟩ := ppAEnd_ok
-  obtain ⟨parts, o, hs, hm, hall⟩ := C04_main_end_glob false ppAEnd h2 h3 (.lit 'a') [] rfl rfl (by decide)
+  obtain ⟨h1, h2⟩ := ppAEnd_ok
+  obtain ⟨parts, o, hs, hm, hall⟩ := C04_main_end_glob false ppAEnd h2 (.lit 'a') [] rfl rfl (by decide)
   rw [h1] at hs hm
   have hD17 : ∀ e ∈ entriesOf t4 t4.rootDir, e.name = print (.lit 'a') → e.isDir = true := by decide +kernel
   have hname : ∀ (l : List Name), (∀ m ∈ l, (m ≠ [] ∧ ∀ c ∈ m, c ≠ '/') ∧ visible false m = true ∧
@@ -1081,5 +1082,108 @@ theorem C04_end_glob_example_eval :
     C04.gg (wordF false true) "a/**" t4 = some ["a/", "a/d", "a/d/g", "a/ld"] ∧
     ["a", "a/d", "a/d/g", "a/ld", "a/ld/g"].map (fun q => C04.mm (wordF false true ||| Gen.FREALPATH) "a/**" t4 q) =
       [some true, some true, some true, some true, some false] := by decide +kernel
+
+/-! ## non-vacuity with a POSIX class in a bracket
+
+  The bridge theorems used to carry a hypothesis "no POSIX class in a bracket of the pattern" (forced
+  by D34, see `D34_bridge_fixed_witness`).  It is gone; here they are applied to patterns WITH a
+  class.  (Replayed on the real library: `glob('[[:digit:]]x/*')` = `['1x/y']`, `globmatch` under
+  REALPATH accepts `1x/y`, rejects `ax/y`; `glob('[[:alpha:]]/**/g')` = `['a/d/g']`, `globmatch` under
+  REALPATH accepts `a/d/g`, rejects `a/ld/g`.) -/
+
+/-- `[[:digit:]]x/*` -/
+def ppPx : PathPat := ⟨false, [.pat (.seq (.cls false [.posix .digit]) (.lit 'x')), .pat .star], false⟩
+
+/-- r/ = { 1x/ { y }, ax/ { y } } -/
+def tPx : FS := ⟨.dir [("1x".toList, .dir [("y".toList, .file)]), ("ax".toList, .dir [("y".toList, .file)])], []⟩
+
+theorem ppPx_ok : printPath ppPx = "[[:digit:]]x/*".toList ∧ patOK ppPx = true ∧
+    ppPx.segs.any Seg.isGlob = false := by decide +kernel
+
+theorem tPx_wf : tPx.WFTree := wfTree_of_wfB _ (by decide +kernel)
+
+/-- **`C04_main_globfree` applies to `[[:digit:]]x/*`** (a POSIX class in the first segment) on
+    `tPx` (`r/ = { 1x/ { y }, ax/ { y } }`): every hypothesis holds, and the equivalence is obtained
+    for `1x/y` (accepted on both sides) and for `ax/y` (rejected on both sides). -/
+theorem posix_bridge_witness :
+    ∃ parts o, globSplit (gInit false true).flags false "[[:digit:]]x/*".toList = .ok parts ∧
+      compileMatch (wordF false true ||| Gen.FREALPATH) false ["[[:digit:]]x/*".toList] none = .ok o ∧
+      ((∃ x ∈ globResults (wctxF false true) tPx 8 [parts], untrail x = "1x/y".toList) ↔
+        matchReal tPx o "1x/y".toList = true) ∧
+      ((∃ x ∈ globResults (wctxF false true) tPx 8 [parts], untrail x = "ax/y".toList) ↔
+        matchReal tPx o "ax/y".toList = true) := by
+  obtain ⟨h1, h2, h4⟩ := ppPx_ok
+  obtain ⟨parts, o, hs, hm, hall⟩ := C04_main_globfree false true ppPx h2 h4 (by
+    intro g rest h
+    simp only [ppPx, List.cons.injEq, Seg.pat.injEq] at h
+    obtain ⟨rfl, _⟩ := h
+    decide +kernel)
+  rw [h1] at hs hm
+  have hD17 : ∀ g rest, ppPx.segs = .pat g :: rest → rest ≠ [] →
+      ∀ e ∈ entriesOf tPx tPx.rootDir, e.name = print g → e.isDir = true := by
+    intro g rest h _ e he hn
+    simp only [ppPx, List.cons.injEq, Seg.pat.injEq] at h
+    obtain ⟨rfl, _⟩ := h
+    have hall : ∀ e ∈ entriesOf tPx tPx.rootDir,
+        e.name = print (.seq (.cls false [.posix .digit]) (.lit 'x')) → e.isDir = true := by decide +kernel
+    exact hall e he hn
+  have hname : ∀ (x y : Name), (∀ m ∈ [x, y], (m ≠ [] ∧ ∀ c ∈ m, c ≠ '/') ∧ visible false m = true ∧
+      m.getLast? ≠ some '\n') → ∀ m ∈ x :: [y], NameOK false m := by
+    intro x y h m hm
+    obtain ⟨a1, a2, a3⟩ := h m hm
+    exact nameOK_of _ _ a1 a2 a3
+  refine ⟨parts, o, hs, hm, ?_, ?_⟩
+  · exact hall tPx tPx_wf (by decide +kernel) 8 (by decide +kernel) hD17 "1x".toList ["y".toList]
+      (hname _ _ (by decide))
+  · exact hall tPx tPx_wf (by decide +kernel) 8 (by decide +kernel) hD17 "ax".toList ["y".toList]
+      (hname _ _ (by decide))
+
+/-- … and the two sides evaluated under the flag words of the theorem: `glob('[[:digit:]]x/*')`
+    returns `1x/y` only; `globmatch` accepts `1x/y` and rejects `ax/y` -/
+theorem posix_bridge_witness_eval :
+    C04.gg (wordF false true) "[[:digit:]]x/*" tPx = some ["1x/y"] ∧
+    C04.mm (wordF false true ||| Gen.FREALPATH) "[[:digit:]]x/*" tPx "1x/y" = some true ∧
+    C04.mm (wordF false true ||| Gen.FREALPATH) "[[:digit:]]x/*" tPx "ax/y" = some false := by decide +kernel
+
+/-- `[[:alpha:]]/**/g` -/
+def ppPG : PathPat := ⟨false, [.pat (.cls false [.posix .alpha]), .glob, .pat (.lit 'g')], false⟩
+
+theorem ppPG_ok : printPath ppPG = "[[:alpha:]]/**/g".toList ∧ patOK ppPG = true := by
+  decide +kernel
+
+/-- **`C04_main_one_glob` applies to `[[:alpha:]]/**/g`** (a POSIX class before the globstar) on `t4`
+    (`r/ = { a/ { d/ { g }, ld -> a/d } }`): the equivalence is obtained for `a/d/g` (accepted on both
+    sides) and for `a/ld/g` (rejected on both sides: the link rule). -/
+theorem posix_one_glob_witness :
+    ∃ parts o, globSplit (gInit false true).flags false "[[:alpha:]]/**/g".toList = .ok parts ∧
+      compileMatch (wordF false true ||| Gen.FREALPATH) false ["[[:alpha:]]/**/g".toList] none = .ok o ∧
+      ((∃ x ∈ globResults (wctxF false true) t4 8 [parts], untrail x = "a/d/g".toList) ↔
+        matchReal t4 o "a/d/g".toList = true) ∧
+      ((∃ x ∈ globResults (wctxF false true) t4 8 [parts], untrail x = "a/ld/g".toList) ↔
+        matchReal t4 o "a/ld/g".toList = true) := by
+  obtain ⟨h1, h2⟩ := ppPG_ok
+  obtain ⟨parts, o, hs, hm, hall⟩ := C04_main_one_glob false ppPG h2 (.cls false [.posix .alpha]) []
+    [.pat (.lit 'g')] rfl rfl (by decide) (by simp) (by decide +kernel)
+  rw [h1] at hs hm
+  have hD17 : ∀ e ∈ entriesOf t4 t4.rootDir, e.name = print (.cls false [.posix .alpha]) → e.isDir = true := by
+    decide +kernel
+  have hname : ∀ (x y z : Name), (∀ m ∈ [x, y, z], (m ≠ [] ∧ ∀ c ∈ m, c ≠ '/') ∧ visible false m = true ∧
+      m.getLast? ≠ some '\n') → ∀ m ∈ x :: [y, z], NameOK false m := by
+    intro x y z h m hm
+    obtain ⟨a1, a2, a3⟩ := h m hm
+    exact nameOK_of _ _ a1 a2 a3
+  refine ⟨parts, o, hs, hm, ?_, ?_⟩
+  · exact hall t4 t4_wf (by decide +kernel) 8 (by decide +kernel) hD17 "a".toList ["d".toList, "g".toList]
+      (hname _ _ _ (by decide)) (by decide +kernel)
+  · exact hall t4 t4_wf (by decide +kernel) 8 (by decide +kernel) hD17 "a".toList ["ld".toList, "g".toList]
+      (hname _ _ _ (by decide)) (by decide +kernel)
+
+/-- … and the two sides evaluated: `glob('[[:alpha:]]/**/g')` returns `a/d/g` only; `globmatch` under
+    REALPATH accepts `a/d/g` and rejects `a/ld/g` (which the regex alone accepts) -/
+theorem posix_one_glob_witness_eval :
+    C04.gg (wordF false true) "[[:alpha:]]/**/g" t4 = some ["a/d/g"] ∧
+    C04.mm (wordF false true ||| Gen.FREALPATH) "[[:alpha:]]/**/g" t4 "a/d/g" = some true ∧
+    C04.mm (wordF false true ||| Gen.FREALPATH) "[[:alpha:]]/**/g" t4 "a/ld/g" = some false ∧
+    C04.mm (wordF false true) "[[:alpha:]]/**/g" t4 "a/ld/g" = some true := by decide +kernel
 
 end WcModel.C04bridge
